@@ -6,37 +6,17 @@
        algorithm and message equal the monitor's own ghost message (otherwise REFMISMATCH: a harness bug, not a violation);
      - for BLAKE and short messages the digest is additionally recomputed from Blake.tla.
    One-shot digests themselves are tied to the specifications by C04-C07. *)
-EXTENDS Blake, Json, IOUtils, TLC
+EXTENDS HashIdeal, Json, IOUtils
 Rec == ndJsonDeserialize(IOEnv.TRACE)
 N == Len(Rec)
 VARIABLES l, st, bad
 vars == <<l, st, bad>>
 Starts == {i \in 1..N : Rec[i].k = 0}
-Ids == 1..8
-NoInst == [alive |-> FALSE, alg |-> "", n |-> 0, msg |-> <<>>]
-New(alg, n) == [alive |-> TRUE, alg |-> alg, n |-> n, msg |-> <<>>]
-IsBlake(alg) == alg \in {"Blake224", "Blake256", "Blake384", "Blake512"}
-DigestOk(s, e, prev) ==
-  /\ e.res = "ok" /\ Len(e.out) = s.n
-  /\ prev.ev = "ref" /\ prev.out = e.out
-  /\ (IsBlake(s.alg) /\ Len(s.msg) <= 400) => e.out = BlakeHash(s.alg, s.msg)
-RefUsable(s, prev) == prev.ev = "ref" /\ prev.alg = s.alg /\ prev.msg = s.msg
-\* returns <<accepted, st'>>
-Step(s, e, prev) ==
-  CASE e.ev = "hadd" -> <<e.res = "ok" /\ ~s[e.i].alive, [s EXCEPT ![e.i] = New(e.alg, e.n)]>>
-    [] e.ev = "upd" -> <<e.res = "ok" /\ s[e.i].alive, [s EXCEPT ![e.i].msg = s[e.i].msg \o e.data]>>
-    [] e.ev = "clone" -> <<e.res = "ok" /\ s[e.i].alive, [s EXCEPT ![e.j] = s[e.i]]>>
-    [] e.ev = "reset" -> <<e.res = "ok" /\ s[e.i].alive, [s EXCEPT ![e.i].msg = <<>>]>>
-    [] e.ev = "ref" -> <<TRUE, s>>
-    [] e.ev = "finreset" -> <<IF RefUsable(s[e.i], prev) THEN DigestOk(s[e.i], e, prev) ELSE PrintT(<<"REFMISMATCH", l + 1>>) /\ FALSE,
-                              [s EXCEPT ![e.i].msg = <<>>]>>
-    [] e.ev = "fin" -> <<IF RefUsable(s[e.i], prev) THEN DigestOk(s[e.i], e, prev) ELSE PrintT(<<"REFMISMATCH", l + 1>>) /\ FALSE,
-                         [s EXCEPT ![e.i] = NoInst]>>
 Init == \E i \in Starts : /\ l = i /\ bad = FALSE
                           /\ st = [k \in Ids |-> IF k = 1 THEN New(Rec[i].alg, Rec[i].n) ELSE NoInst]
 Next == /\ ~bad /\ l < N /\ Rec[l + 1].k # 0
         /\ LET e == Rec[l + 1]
-               r == Step(st, e, Rec[l])
+               r == Step(st, e, Rec[l], l + 1)
            IN /\ l' = l + 1
               /\ st' = r[2]
               /\ bad' = IF r[1] THEN FALSE ELSE PrintT(<<"REJECT", l + 1>>)
